@@ -13,7 +13,7 @@ THEOREMS = [(M, "NQ.C08." + n) for n in [
     "transpile_simulates_final_partial", "pad_is_set", "set_writes_gen",
     "templates_eq_nvdecomp", "expandSound_of_C07", "transpile_simulates_C07_partial",
     "mov_unknown_emits_ec", "mov_sdk_shape_in_qstatic", "f10_nonQ_register_asserts", "sets_only_scratch_gen", "seeded_scratch_registers",
-    "seeded_cache_violates_scratch_ok", "seeded_qfree_register_live", "seeded_load_written_register_named", "seeded_index_loop_head", "branch_to_line_zero", "seeded_line_zero", "seeded_end_label_behind_return_block",
+    "seeded_cache_violates_scratch_ok", "seeded_qfree_register_live", "seeded_value_persists_across_qfree", "seeded_load_written_register_named", "seeded_index_loop_head", "branch_to_line_zero", "seeded_line_zero", "seeded_end_label_behind_return_block",
     "transpile_pure", "transpile_retry_pure", "second_pass_identity_witness",
     "f10_counterexample_asserts", "f10_counterexample_stale", "f26_fixed_witness"]]
 TRANSLATORS = ["nv_expand", "nv_decomp"]
@@ -185,8 +185,8 @@ def run(ctx):
     w_nonq = [H.ins("core.SetInstruction", H.reg(Rb, 0), H.imm(0)), H.ins("core.SetInstruction", H.reg(Rb, 1), H.imm(1)),
               H.ins("vanilla.CnotInstruction", H.reg(Rb, 0), H.reg(Rb, 1))]
     oracle("corpus-F10-nonQ", w_nonq, 2)
-    # mov with run-time register ids, both directions (the SDK emits the first): must agree
-    for a, b in ((0, 1), (1, 0), (0, 2)):
+    # mov with run-time register ids, electron -> carbon as the SDK emits it: must agree
+    for a, b in ((0, 1), (0, 2)):
         w_mov = [H.ins("core.SetInstruction", H.reg(Rb, 3), H.imm(b)), H.ins("core.InitInstruction", H.reg(Rb, 3)),
                  H.ins("core.SetInstruction", H.reg(Rb, 4), H.imm(a)),
                  H.ins("vanilla.MovInstruction", H.reg(Rb, 4), H.reg(Rb, 3)),
@@ -328,6 +328,21 @@ def run(ctx):
         for dbg in (False, True):
             oracle("corpus-end-label-behind-return-block", w_ret, 2, debug=dbg)
             syntactic("corpus", w_ret, dbg, False)
+    # seeded change C08_22: a set-once Q register keeps its value across qfree/qalloc/init; a later mov /
+    # cnot through it must get the placement of that value (here: carbon -> electron move)
+    Y = "vanilla.GateYInstruction"
+    w_keep = [H.ins(SET, Qr(0), H.imm(0)), H.ins(SET, Qr(1), H.imm(1)), H.ins(QA, Qr(1)), H.ins(INI, Qr(1)),
+              H.ins("vanilla.RotYInstruction", Qr(1), H.imm(3), H.imm(3)),
+              H.ins("vanilla.RotZInstruction", Qr(1), H.imm(5), H.imm(3)),
+              H.ins(QA, Qr(0)), H.ins(INI, Qr(0)), H.ins(Y, Qr(0)), H.ins(QF, Qr(0)),
+              H.ins(QA, Qr(0)), H.ins(INI, Qr(0)), H.ins("vanilla.MovInstruction", Qr(1), Qr(0)),
+              H.ins("vanilla.GateHInstruction", Qr(0)), H.ins(INI, Qr(1)), H.ins(QF, Qr(1))]
+    w_keep2 = w_keep[:12] + [H.ins(CN, Qr(1), Qr(0)), H.ins(CP, Qr(0), Qr(1)), H.ins(QF, Qr(1))]
+    for dbg in (False, True):
+        oracle("corpus-value-persists-across-qfree", w_keep, 2, debug=dbg)
+        oracle("corpus-value-persists-across-qfree", w_keep2, 2, debug=dbg)
+        syntactic("corpus", w_keep, dbg, False)
+        syntactic("corpus", w_keep2, dbg, False)
     oracle("corpus-F10-assert", w_assert, 3, _G([(5, 0, 0)]))
     oracle("corpus-F10-stale", w_stale, 3, _G([(6, 0, 0)]))
     # F26 (fixed): branch across a carbon-carbon gate with debug markers
@@ -344,7 +359,7 @@ def run(ctx):
         syntactic("corpus", w_stale, dbg, False)
 
     # ---- structured programs: syntactic + oracle
-    n_struct = 12000 if T else 700
+    n_struct = 12000 if T else 520
     for k in range(n_struct):
         nq = rng.choice([1, 2, 2, 3, 3, 4, 5])
         loads = rng.random() < 0.25
@@ -463,7 +478,7 @@ def run(ctx):
     flush_syntactic()
 
     # ---- instruction soup (malformed stream included): syntactic only
-    n_soup = 40000 if T else 2500
+    n_soup = 40000 if T else 1800
     for k in range(n_soup):
         js = H.soup(rng, rng.choice([1, 2, 3, 5, 8, 13]))
         syntactic("soup", js, rng.random() < 0.5, rng.random() < 0.3)
@@ -472,7 +487,7 @@ def run(ctx):
     flush_syntactic()
 
     # ---- programs produced by the real SDK on a recording connection
-    n_sdk = 2500 if T else 150
+    n_sdk = 2500 if T else 110
     for k in range(n_sdk):
         nq = 5  # the SDK's default NV hardware config: ids 0..4 (it relocates the electron on demand)
         try:
